@@ -284,6 +284,7 @@ def run(ctx):
         # reordered equal diagrams (the pre-fix NaN family)
         ([[0.1, 0.7], [0.2, 0.9], [0.3, 1.3]], [[0.3, 1.3], [0.1, 0.7], [0.2, 0.9]], 0.4),
         ([[0.31, 1.17], [0.05, 0.93], [0.47, 0.61], [0.2, 0.9]], [[0.2, 0.9], [0.47, 0.61], [0.31, 1.17], [0.05, 0.93]], 0.137),
+        ([[0.1, 1.8], [0.1, 1.5]], [[0.1, 1.5], [0.1, 1.8]], 0.5),       # the input of Props/C14.old_heat_counterexample
     ]
     cases, lines = [], []
     n = ctx.n(2000, 24000)
@@ -385,7 +386,8 @@ MANIFEST = {
             "(never NaN) by construction. Beyond the design's plan the analytic clauses are proved too: the kernel is positive "
             "semi-definite (Gaussian kernel PSD via its power series), so over the reals the clamp is a no-op; the triangle "
             "inequality (Cauchy-Schwarz/Minkowski for the PSD form); and the stability bound heat <= W1/(4 sigma sqrt(pi)) against "
-            "every partial matching (Euclidean ground metric). The model is tied to the code on every run by executing it at Float "
+            "every partial matching (Euclidean ground metric); a kernel-evaluated IEEE-double witness shows the old radicand negative "
+            "for a reordered diagram. The model is tied to the code on every run by executing it at Float "
             "against evalHeatKernel/heat (kernel values and radicand to 1e-9 plus a rounding floor), against an independent "
             "definition, and all laws are evaluated on the real code as tests.",
     "note": "Trusted: Lean kernel + Mathlib, axioms propext/Classical.choice/Quot.sound; the correspondence harness; np.exp/np.sqrt "
